@@ -31,6 +31,9 @@ type Case struct {
 	// attributes: 1 = COLLATE only (the collation determines the charset), 2 = CHARSET only where the collation is the
 	// charset's default, 3 = alternating. The differ resolves the missing half, so no change may be reported for it.
 	Short int `json:"short,omitempty"`
+	// TwoSchemas (realm level): both realms hold a second schema crm with a copy of the users table. 1: nothing else;
+	// 2: in the desired realm posts.fk_posts_user references crm.users instead of app.users; 3: the other way round.
+	TwoSchemas int `json:"two_schemas,omitempty"`
 }
 
 // DefaultCollation of the character sets used by the base (MySQL 8 defaults, as in the driver's embedded tables).
@@ -186,6 +189,20 @@ func Apply(dialect string, m *gm.Schema, e EditRef) ([]string, error) {
 			}
 		}
 		return nil, fmt.Errorf("harness: enum-drop %+v", e)
+	case "schema-charset": // MySQL: another default character set (and its collation) for the schema
+		parts := strings.SplitN(e.Arg, "/", 2)
+		m.Charset, m.Collation = parts[0], parts[1]
+		return []string{"schema:ModifyAttr(Charset)", "schema:ModifyAttr(Collation)"}, nil
+	case "schema-collate":
+		m.Collation = e.Arg
+		return []string{"schema:ModifyAttr(Collation)"}, nil
+	case "schema-comment": // PostgreSQL
+		had := m.Comment != ""
+		m.Comment = e.Arg
+		if had {
+			return []string{"schema:ModifyAttr(Comment)"}, nil
+		}
+		return []string{"schema:AddAttr(Comment)"}, nil
 	case "enum-add-value":
 		for i := range m.Enums {
 			if m.Enums[i].Name == e.Obj {
@@ -655,6 +672,32 @@ func checkCase(c Case) (Outcome, error) {
 	if err != nil {
 		return out, fmt.Errorf("harness: build edited: %v", err)
 	}
+	if c.TwoSchemas != 0 {
+		for i, s := range []*schema.Schema{from, to} {
+			only := gm.Schema{Name: "crm", Charset: base.Charset, Collation: base.Collation, Enums: base.Enums, Tables: []gm.Table{*base.Table("users")}}
+			crm, err := gm.Build(c.Dialect, only)
+			if err != nil {
+				return out, fmt.Errorf("harness: build second schema: %v", err)
+			}
+			crm.Realm = s.Realm
+			s.Realm.Schemas = append(s.Realm.Schemas, crm)
+			if c.TwoSchemas == 2 && i == 1 || c.TwoSchemas == 3 && i == 0 {
+				posts, _ := s.Table("posts")
+				twin, _ := crm.Table("users")
+				for _, fk := range posts.ForeignKeys {
+					if fk.Symbol == "fk_posts_user" {
+						fk.RefTable = twin
+						for j, rc := range fk.RefColumns {
+							fk.RefColumns[j], _ = twin.Column(rc.Name)
+						}
+					}
+				}
+			}
+		}
+		if c.TwoSchemas > 1 {
+			out.Expected = append(out.Expected, "posts:ModifyForeignKey(fk_posts_user,refcolumn+reftable)")
+		}
+	}
 	if c.Perm != 0 {
 		Permute(to, c.Perm)
 	}
@@ -690,7 +733,7 @@ func checkCase(c Case) (Outcome, error) {
 	if c.Level == "table" {
 		var w []string
 		for _, d := range want {
-			if !strings.HasPrefix(d, "AddTable(") && !strings.HasPrefix(d, "DropTable(") && !strings.Contains(d, "Object(") {
+			if !strings.HasPrefix(d, "AddTable(") && !strings.HasPrefix(d, "DropTable(") && !strings.Contains(d, "Object(") && !strings.HasPrefix(d, "schema:") {
 				w = append(w, d)
 			}
 		}
